@@ -69,8 +69,35 @@ def detect(d, pids=None):
     return res
 
 
+def table(root):
+    """markdown table of every seeded change, from the meta.json / notes.md files (DESIGN.md 'Seeded changes')"""
+    rows = ['| change | what it does (author\'s words) | caught by (first violated clause of the property\'s quick check) | status |', '|---|---|---|---|']
+    n = built = 0
+    for d in sorted(os.listdir(root)):
+        mp = os.path.join(root, d, 'meta.json')
+        if not os.path.exists(mp):
+            continue
+        m = json.load(open(mp))
+        notes = open(os.path.join(root, d, 'notes.md')).read().strip().splitlines()
+        what = next((l.lstrip('# ').strip() for l in notes if l.strip()), '')[:170].replace('|', '/')
+        fv = str(m['detection'].get('first_violation', ''))[:150].replace('|', '/')
+        n += 1
+        if m.get('initially_missed'):
+            status = 'missed at first: ' + str(m.get('strengthening', ''))[:330].replace('|', '/')
+        else:
+            status = 'caught as built'
+            built += 1
+        rows.append(f'| {d} | {what} | {fv} | {status} |')
+    return n, built, '\n'.join(rows)
+
+
 if __name__ == '__main__':
     cmd, d = sys.argv[1], sys.argv[2]
+    if cmd == 'table':
+        n, built, t = table(d)
+        print(f'<!-- {n} changes, {built} caught as built -->')
+        print(t)
+        sys.exit(0)
     if cmd == 'validate':
         print(json.dumps(validate(d), indent=1))
     else:
